@@ -320,6 +320,13 @@ pub fn take_panics() -> Vec<(String, String)> {
 pub fn panic_site(loc: &str, msg: &str) -> String {
     let loc = loc.replace("/repo/", "");
     let file = loc.split(':').next().unwrap_or(&loc).to_string();
+    // a panic inside a dependency: "<crate>-<version>/<path>" and only the head of the message
+    if let Some(at) = file.find("/registry/src/") {
+        let rest = &file[at + "/registry/src/".len()..];
+        let rest = rest.split_once('/').map_or(rest, |x| x.1);
+        let head: String = msg.split_whitespace().take(2).collect::<Vec<_>>().join(" ");
+        return format!("{rest}|{head}");
+    }
     // numbers inside the message (column values, lengths) are data, not identity
     let mut m = String::new();
     let mut in_num = false;
